@@ -42,11 +42,6 @@ EXPLANATION = (
 
 # (class, method, parameter) that may be left at its default in a structural copy, with the reason
 EXEMPT = {
-    ("FunctionType", "transform", "comptime_args"):
-        "recomputed from `params` (the bound comptime parameters): equals the old value for a type whose comptime arguments were never "
-        "given explicitly.  After instantiate_partial (explicit comptime args) a later transform DOES lose them -- at unit level "
-        "f[n:=3].transform(identity).comptime_args == [] -- but comptime_args are only read by type_check_args on the freshly "
-        "unquantified type, never after such a transform. Observation, no failing user-level input found (also by two seeding agents).",
     ("ConstParam", "with_idx", "from_comptime_arg"):
         "readers are the default comptime_args computation and the type printer; instantiate_partial passes comptime_args explicitly. "
         "Observation, no failing input found.",
